@@ -36,6 +36,8 @@ type config struct {
 	align  string // left right center justify
 	ws     string // white-space
 	width  int    // container width px
+	ow     string // overflow-wrap ("" = not set)
+	wb     string // word-break ("" = not set)
 }
 
 func (c config) wrap() bool { return c.ws == "normal" || c.ws == "pre-line" || c.ws == "pre-wrap" }
@@ -52,11 +54,25 @@ func (c config) css() string {
 	if c.lh != 0 {
 		lh = fmt.Sprintf("%dpx", c.lh)
 	}
-	return fmt.Sprintf("font:%dpx/%s %s;width:%dpx;text-indent:%dpx;text-align:%s;white-space:%s", c.fs, lh, "Ahem", c.width, c.indent, c.align, c.ws)
+	s := fmt.Sprintf("font:%dpx/%s %s;width:%dpx;text-indent:%dpx;text-align:%s;white-space:%s", c.fs, lh, "Ahem", c.width, c.indent, c.align, c.ws)
+	if c.ow != "" {
+		s += ";overflow-wrap:" + c.ow
+	}
+	if c.wb != "" {
+		s += ";word-break:" + c.wb
+	}
+	return s
 }
 
 func (c config) String() string {
-	return fmt.Sprintf("fs=%d lh=%d indent=%d align=%s ws=%s width=%d", c.fs, c.lh, c.indent, c.align, c.ws, c.width)
+	s := fmt.Sprintf("fs=%d lh=%d indent=%d align=%s ws=%s width=%d", c.fs, c.lh, c.indent, c.align, c.ws, c.width)
+	if c.ow != "" {
+		s += " ow=" + c.ow
+	}
+	if c.wb != "" {
+		s += " wb=" + c.wb
+	}
+	return s
 }
 
 // geo: (geo g s wrap avail indent align lh asc desc x0 y0); Ahem: ascent 0.8em, descent 0.2em
@@ -627,6 +643,44 @@ func Run(tier string, seed uint64, modelPath, repo string, out *res.Result) erro
 			}
 			out.Hit("stage:" + st.name)
 			if err := rn.sweep(cr, p, c, cseed, minK); err != nil {
+				return err
+			}
+		}
+	}
+	// judge-only stages: wider generator, the implementation's own numbers against J0..J3 (judge.go)
+	jbudget := 14000
+	if tier == "thorough" {
+		jbudget = 150000
+	}
+	jstages := []struct {
+		name  string
+		share int
+		o     genOpts
+		mode  string
+	}{
+		{"J:nested-end-edges", 25, genOpts{maxLeaves: 6, maxWord: 6, spans: true, maxDepth: 3}, "normal"},
+		{"J:wrap-modes", 25, genOpts{maxLeaves: 6, maxWord: 10, spans: true, maxDepth: 2}, "wrap"},
+		{"J:valign", 25, genOpts{maxLeaves: 6, maxWord: 5, spans: true, maxDepth: 3, atoms: true, atomsInSpans: true, va: true}, "normal"},
+		{"J:all", 25, genOpts{maxLeaves: 7, maxWord: 8, brs: true, spans: true, maxDepth: 3, atoms: true, atomsInSpans: true, leftEdges: true, edgeSpaces: true, va: true}, "any"},
+	}
+	for _, st := range jstages {
+		target := rn.n + jbudget*st.share/100
+		for rn.n < target {
+			cr := r.Sub()
+			cseed := cr.Seed()
+			c := judgeConfig(cr)
+			switch st.mode {
+			case "normal":
+				c.ow, c.wb = "", ""
+			case "wrap":
+				c.ow, c.wb = rng.Pick(cr, "anywhere", "anywhere", "break-word"), ""
+				if cr.P(1, 4) {
+					c.ow, c.wb = "", "break-all"
+				}
+			}
+			p := genPara(cr, st.o, c.fs)
+			out.Hit("stage:" + st.name)
+			if err := rn.judgeSweep(cr, p, c, cseed); err != nil {
 				return err
 			}
 		}
